@@ -542,3 +542,15 @@ Proof.
   unfold db_open. destruct (recover crc dec d); [|discriminate]. intros H. injection H as <-.
   cbn [db_store]. apply apply_all_fresh, empty_fresh.
 Qed.
+
+Lemma aget_above {V} (l : list (Z * V)) k : Forall (fun kv => fst kv < k) l -> aget Z.eqb k l = None.
+Proof.
+  induction l as [|[k' v] l IH]; cbn; intros H; [reflexivity|]. inversion H; subst. cbn in *.
+  destruct (k' =? k) eqn:E; [apply Z.eqb_eq in E; lia|auto].
+Qed.
+(** the next node / edge identifier names nothing that exists *)
+Lemma reopen_new_ids_l crc dec d st :
+  db_open crc dec d = ROk st ->
+  aget Z.eqb (snd (st_create_node (db_store st) [] 0)) (s_nodes (db_store st)) = None
+  /\ aget Z.eqb (snd (st_create_edge (db_store st) 0 0 [] 0)) (s_edges (db_store st)) = None.
+Proof. intros H. destruct (reopen_ids_fresh_l _ _ _ _ H) as [A B]. split; cbn; apply aget_above; assumption. Qed.
